@@ -26,7 +26,7 @@ theorem offsC_rng (z : Zone) (wf : WF z) (c : ZRng) (hc : CacheRng z c) (t : Int
     offsC z c t = some (off z t, rngAt z (trIdx z t)) := by
   unfold offsC
   simp only []
-  rw [wrap32_of_I32 t ht, wf.2.2.2.2.2.2]
+  rw [clamp32_of_I32 t ht, wf.2.2.2.2.2.2]
   simp only [Bool.false_eq_true, if_false]
   by_cases hit : t ≥ c.prev ∧ t < c.next
   · rw [if_pos hit]
